@@ -222,6 +222,20 @@ class C01(RunSpec):
             p.update({"leaf": _cycle(CMA_ENGINES, idx // 16), "fams": ["face", "linear", "face"], "levels": [2, 2, 3], "gsc": "melimit", "free_lscs": True,
                       "root": _cycle(["sea", "de", "shade", "lhs"], idx // 16), "allow_cutoff": False})
             p.pop("gscs", None)
+        if idx % 16 == 1:
+            # an objective with infinite values (a region in which it is infinitely good, or a penalty of +inf) and a local search sprouted
+            # from a parent whose best point has such a value: whatever scipy's arithmetic does with it, the objective is only called in the box
+            p.update({"root": _cycle(["sea", "de", "lhs", "ga"], idx // 16), "leaf": _cycle(["local", "local_maxiter"], idx // 16), "n_levels": 2, "fam": _cycle(["pit", "pit", "penalty"], idx // 16),
+                      "sprout": "simple", "gsc": "melimit", "free_lscs": True, "allow_cutoff": False, "boxes": ["sym", "asym", "decimal"], "dim": (2, 3)})
+            p.pop("gscs", None)
+            p.pop("fams", None)
+            p.pop("box", None)
+        if idx % 16 == 9:
+            # a GA-style leaf (arithmetic crossover, uniform mutation of a few genes only) sprouted from parents that have converged exactly onto
+            # a face of a box with decimal bounds: a blend of two equal coordinates must not leave the box by a rounding error
+            p.update({"root": _cycle(["shade", "de_dither"], idx // 16), "leaf": "ga", "n_levels": 2, "fams": ["linear"], "box": "overshoot", "sprout": "simple",
+                      "level_limit": 6, "gsc": "melimit", "free_lscs": True, "allow_cutoff": False, "hibernation": False, "dim": (2, 3)})
+            p.pop("gscs", None)
         if idx % 16 in (5, 13):
             # result caching switched on, box bounds that use the full mantissa, engines that land exactly on a face (CMA-ES' bound
             # repair, L-BFGS-B's projection): a cache key / canonicalisation of the point must not move what the objective is given
@@ -233,6 +247,16 @@ class C01(RunSpec):
 
     def make_case(self, seed, idx, tier):
         d = super().make_case(seed, idx, tier)
+        if idx % 16 == 9 and d.get("kind") == "tree" and len(d["levels"]) == 2 and d["levels"][1]["engine"] == "ga":
+            rmin = min(b[1] - b[0] for b in d["box"]["bounds"])
+            d["levels"][0].update({"pop": 20, "gens": 40, "lsc": {"k": "dontstop"}})
+            d["levels"][1].update({"pop": 12, "gens": 4, "p_mutation": 0.1, "p_crossover": 0.9, "sample_std": rmin * 0.01, "lsc": {"k": "melimit", "n": 6}, "k_elites": 1})
+            d["levels"][1].pop("election_group_size", None)
+            d["sprout"]["far"] = 0.0
+            d["gsc"] = {"k": "melimit", "n": 12}
+            d["options"].pop("log_level", None)
+            if d["obj"]["fam"] == "linear":
+                d["obj"]["w"] = [-abs(w) if not d["maximize"] else abs(w) for w in d["obj"]["w"]]  # optimum in the upper corner
         if idx % 16 in (5, 13) and d.get("kind") == "tree":
             d["use_cache"] = True
         if idx % 16 == 3 and d.get("kind") == "tree" and d["levels"][-1]["engine"].startswith("local"):
@@ -257,6 +281,8 @@ class C01(RunSpec):
         fl += [("C01.cma_deme_ended_by_cma_es_own_stop_with_the_distribution_mean_outside_the_box", 2, "CMA deme that ran to CMA-ES' own termination with its distribution mean outside the box")]
         fl += [("C01.within_1e-12_of_a_face_with_result_cache.CMADeme metaepoch", 1, "CMA-ES evaluated a point within 1e-12 of a face of a full-precision box with result caching on"),
                ("C01.within_1e-12_of_a_face_with_result_cache.LocalDeme metaepoch", 1, "a local search evaluated a point within 1e-12 of a face of a full-precision box with result caching on")]
+        fl += [("C01.ga_style_deme_evaluations_with_a_coordinate_exactly_on_a_face_of_a_decimal_box", 50, "evaluations of a GA-style deme with a coordinate exactly on a face of a box with decimal bounds (5.12, 0.9, ...)")]
+        fl += [("C01.local_deme_sprouted_from_a_seed_with_infinite_fitness", 2, "local search sprouted from a seed whose objective value is infinite")]
         fl += [("local_method_name_in_lower_case", 2, "local level whose method name is given in lower case")]
         fl += [("retargeted_configurations_completed", 2, "trees built from a deep-copied, re-targeted configuration"), ("minimize_after_same_callable_on_another_box", 1, "minimize() of a callable that was minimised over another box before")]
         return fl
@@ -656,6 +682,11 @@ class C06(RunSpec):
             # local searches sprouted from mid-level demes that have just finished (local-method generator), one problem object per level
             p.update({"n_levels": 3, "leaf": "local", "shared": False, "sprout": "custom", "gscs": ["melimit"], "lscs": ["melimit"],
                       "inner": _cycle(["cma", "sea", "de"], idx // 10), "stacks": False, "nbclocal": True, "hibernation": False})
+        if idx % 10 == 9:
+            # adaptive mutation (its width grows with the metaepochs since the deme last sprouted) on a deme that sleeps for a long time and
+            # is then woken by a sprout: it has to advance like any other awake deme
+            p.update({"n_levels": 2, "root": "sea_adapt", "leaf": _cycle(["sea", "de", "cma"], idx // 10), "hibernation": True, "level_limit": 1, "gscs": ["melimit"],
+                      "sprout": "simple", "free_lscs": True, "fams": ["rastrigin", "funnel"], "boxes": ["sym", "asym"], "stacks": False})
         if idx % 10 == 3:
             # one problem object for all levels, a parent that stops by its own condition while children that consist of a single
             # individual (the sprout seed) keep running: whatever the child evaluates must be booked on the child, not on its stopped parent
@@ -690,6 +721,14 @@ class C06(RunSpec):
             d["levels"][0]["lsc"] = {"k": "dontstop"}
             d["levels"][1]["lsc"] = {"k": "melimit", "n": rng.randint(1, 3)}
             d["gsc"] = {"k": "melimit", "n": 9}
+        if idx % 10 == 9 and len(d["levels"]) == 2 and d["levels"][0]["engine"] == "sea_adapt" and not d.get("reuse") and not d.get("soak"):
+            rmin = min(b[1] - b[0] for b in d["box"]["bounds"])
+            d["levels"][0].update({"mutation_std": rmin * 0.05, "mutation_std_step": rmin * 0.01, "lsc": {"k": "dontstop"}})
+            d["levels"][0].pop("mutation_std_array", None)
+            d["levels"][1]["lsc"] = {"k": "melimit", "n": 8 + (idx // 10) % 4}  # the root sleeps 8-11 metaepochs: longer than mutation_std / mutation_std_step
+            d["sprout"]["far"] = rmin * 0.02
+            d["options"]["hibernation"] = True
+            d["gsc"] = {"k": "melimit", "n": 30}
         if idx % 10 == 3 and len(d["levels"]) == 2 and d["levels"][1]["engine"] in ("sea", "sea_adapt") and not d.get("reuse") and not d.get("soak"):
             d["levels"][1].update({"pop": 1, "k_elites": 1, "lsc": {"k": "dontstop"}})
             d["levels"][1].pop("election_group_size", None)
@@ -716,6 +755,7 @@ class C06(RunSpec):
             ("C06.cause.gsc", 1, "deactivation by GSC"),
             ("C06.cause.engine", 1, "engine self-termination"),
             ("C06.deactivation.CMADeme.engine", 1, "CMA-ES internal stop"),
+            ("C06.adaptive_mutation_deme_ran_after_sleeping_longer_than_std_over_step", 3, "a deme with adaptive mutation ran again after sleeping more metaepochs than mutation_std / mutation_std_step"),
             ("C06.stopped_parent_rechecked_while_its_one_individual_child_on_the_same_problem_object_ran", 5, "stopped parent re-checked while a one-individual child sharing its problem object ran"),
             ("C06.stopped_deme_observed_3_later_metaepochs", 1, "stopped deme observed over >=3 later metaepochs"),
             ("hand_driven_metaepochs", 10, "metaepochs driven by hand through run_metaepoch() / run_sprout()"),
@@ -768,6 +808,9 @@ class C07(RunSpec):
 
     def make_case(self, seed, idx, tier):
         d = super().make_case(seed, idx, tier)
+        if idx % 10 == 1 and d.get("kind") == "tree" and any(lv["engine"] in SEA_FAMILY + ["mwea"] for lv in d["levels"]):
+            d["override_builtin_ea"] = True  # config_class_to_deme_class = {EALevelConfig: <user's EADeme subclass>}
+            d["entry"] = "tree"
         if idx % 10 == 5 and d.get("kind") == "tree" and len(d["levels"]) == 3 and not d.get("reuse"):
             rmin = min(b[1] - b[0] for b in d["box"]["bounds"])
             d["sprout"] = {"k": "custom", "gen": {"k": "best"}, "dfilters": [{"k": "far", "d": rmin * 0.03, "ord": 2}],
@@ -809,6 +852,7 @@ class C07(RunSpec):
             ("C07.adaptive_mutation_deme_woke_up", 2, "a deme with adaptive mutation went through a sleep-wake cycle"),
             ("C07.three_level_tree_two_sprouting_parents", 1, "3-level tree with >=2 sprouting parents on level 1"),
             ("C07.round_creating_2_children", 1, "round creating >=2 children"),
+            ("C07.deme_of_a_level_whose_built_in_config_class_is_mapped_to_a_user_deme_class", 5, "demes of levels whose built-in config class the user mapped to a deme class of their own"),
             ("C07.custom_deme_class_seen.custom", 1, "custom deme class registered for a new config class"),
             ("C07.custom_deme_class_seen.custom_ea", 1, "custom deme class registered for a new config class derived from a built-in one"),
             ("C07.custom_deme_class_seen.custom_ea2", 1, "custom deme class registered for a config class derived from another registered custom config class"),
